@@ -1028,7 +1028,12 @@ class CPreProcessor:
                 lhs = 0
             lhs = expressions.NumericLiteral(lhs, self._int_type, token.loc)
         elif token.typ == "NUMBER":
-            lhs, _ = cnum(token.val)
+            try:
+                lhs, _ = cnum(token.val)
+            except ValueError:
+                self.error(
+                    f"Invalid integer constant {token.val}", loc=token.loc
+                )
             # TODO: check type specifier?
             lhs = expressions.NumericLiteral(lhs, self._int_type, token.loc)
         elif token.typ == "CHAR":
